@@ -4,6 +4,8 @@ import glob, os, re
 root = os.path.join(os.path.dirname(os.path.dirname(os.path.abspath(__file__))), "lean", "AmqModel", "Props")
 for f in sorted(glob.glob(root + "/C*.lean")):
     src = open(f).read()
+    src = re.sub(r"/-(?!-)(.*?)-/", "", src, flags=re.S)      # plain block comments (kept originals of restated theorems)
+    src = re.sub(r"^\s*--.*$", "", src, flags=re.M)
     pid = os.path.basename(f)[:-5]
     items = []
     for m in re.finditer(r"(?:/--(.*?)-/\s*)?^theorem\s+([A-Za-z0-9_.']+)", src, re.S | re.M):
